@@ -286,6 +286,10 @@ def _memo_helper(ctx, caller, call, own_key):
     lk = utext(tgt.value)
     if lk not in amap or in_caller_terms(tgt.slice) != own_key:
         return None
+    # the table is the CALLER's: the helper never rebinds the parameter (`lookup = lookup or {}` swaps an empty -
+    # falsy - table for a private one on every call, and nothing is shared)
+    if any(isinstance(x, ast.Name) and x.id == lk and isinstance(x.ctx, ast.Store) for x in ast.walk(g.node)):
+        return None
     locs = {utext(t) for t in fill.targets if isinstance(t, ast.Name)}
     # every result is the stored entry
     for r in walk_nodes(g.node.body, ast.Return):
